@@ -1,6 +1,6 @@
 //go:build verif
 
-package p384
+package p384_test
 
 // C14 for ecc/p384: the exported Curve API over fixed alphabets of points and scalars under each
 // configuration. purego selects the crypto/elliptic wrapper (p384_generic.go), the amd64 build circl's own
@@ -14,6 +14,7 @@ import (
 	"math/big"
 	"testing"
 
+	"github.com/cloudflare/circl/ecc/p384"
 	"github.com/cloudflare/circl/internal/verifc14"
 	"github.com/cloudflare/circl/internal/verifmc"
 )
@@ -23,7 +24,7 @@ type c14Pt struct {
 	x, y *big.Int
 }
 
-func c14Obs(d *verifc14.D, label string, c Curve, x, y *big.Int) {
+func c14Obs(d *verifc14.D, label string, c p384.Curve, x, y *big.Int) {
 	if x == nil || y == nil {
 		d.Bytes(label, []byte("nil"))
 		return
@@ -34,7 +35,7 @@ func c14Obs(d *verifc14.D, label string, c Curve, x, y *big.Int) {
 }
 
 type c14Env struct {
-	cv               Curve
+	cv               p384.Curve
 	P                *big.Int
 	scal, key, small []verifc14.Named
 	pts              []c14Pt
@@ -42,9 +43,9 @@ type c14Env struct {
 }
 
 func c14Setup(c *verifc14.T) *c14Env {
-	c.Backend("ecc/p384.hasBMI2", c14Backend(), verifc14.Bmi2Sel)
+	c.BackendOptional("ecc/p384.hasBMI2", p384.C14ReadBackend, verifc14.Bmi2Sel)
 	r := c.R
-	cv := P384()
+	cv := p384.P384()
 	std := elliptic.P384().Params()
 	N, P := std.N, std.P
 
